@@ -3,9 +3,9 @@ timing.
 
 Stage ``reader`` (differential): FlatBuffers datasets in every compression the
 native reader supports, 1..3 payload attributes (all fb dtypes, ranks 0..3),
-1..10 shards of SKEWED sizes (1..300 examples; shard boundaries forced by
+1..10 (one case in eight: 17..48 small) shards of SKEWED sizes (1..300 examples; shard boundaries forced by
 metadata changes so that worker completion order varies), then reads with
-file_parallelism T in 1..S+3, shards=k, shard_filter, shuffle on/off, early
+file_parallelism T in 1..S+3 and 16, 33, 64, shards=k, shard_filter, shuffle on/off, early
 drop after j examples, and two native iterators alive at the same time on
 different splits advanced in a generated interleaving across epoch boundaries.
 Oracle: as_numpy_iterator_rust(shuffle=0) yields the same sequence as
@@ -63,14 +63,21 @@ def strategy_reader(draw, tier):
         })
     size = st.one_of(st.integers(1, 3), st.integers(1, 30),
                      st.sampled_from([1, 1, 100, 300]))
+    if draw(st.integers(0, 7)) == 0:
+        # many small shards: more shards (and threads) than the reader has
+        # processors or any internal bound on work in flight
+        train = draw(st.lists(st.integers(1, 3), min_size=17, max_size=48))
+    else:
+        train = draw(st.lists(size, min_size=1, max_size=10))
     shards = {
-        "train": draw(st.lists(size, min_size=1, max_size=10)),
+        "train": train,
         "test": draw(st.lists(size, min_size=0, max_size=4)),
     }
     reads = draw(
         st.lists(st.fixed_dictionaries({
             "t": st.sampled_from([["abs", 1], ["abs", 2], ["S", -1], ["S", 0],
-                                  ["S", 1], ["S", 3], ["abs", 16]]),
+                                  ["S", 1], ["S", 3], ["abs", 16],
+                                  ["abs", 33], ["abs", 64]]),
             "k": st.one_of(st.none(), st.integers(1, 11)),
             "filter": st.sampled_from([None, None, "even", "big", "none"]),
             "shuffle": st.sampled_from([0, 0, 0, 5]),
@@ -82,10 +89,11 @@ def strategy_reader(draw, tier):
         st.one_of(
             st.none(),
             st.fixed_dictionaries({
-                "t": st.integers(1, 4),
+                "t": st.sampled_from([1, 2, 3, 4, 16, 20]),
                 "pattern": st.lists(st.integers(0, 1), min_size=4,
                                     max_size=40),
                 "repeat": st.booleans(),
+                "shuffle": st.sampled_from([0, 0, 4]),
             })))
     threads = draw(st.sampled_from([None, None, 1, 2, 3]))
     return {"compression": comp, "attrs": attrs, "shards": shards,
@@ -258,15 +266,17 @@ def run_reader(case, ctx):
                 ]
             its = {
                 split: dsops.open_iter(ds, split, "rust",
-                                       repeat=pair["repeat"], shuffle=0,
+                                       repeat=pair["repeat"],
+                                       shuffle=pair.get("shuffle", 0),
                                        file_parallelism=pair["t"])
                 for split in ("train", "test")
             }
             pos = {"train": 0, "test": 0}
+            seen = {"train": [], "test": []}
             done = set()
             what = (f"two live iterators, T={pair['t']} repeat="
-                    f"{pair['repeat']} pattern={pair['pattern']} sizes "
-                    f"{case['shards']}")
+                    f"{pair['repeat']} shuffle={pair.get('shuffle', 0)} "
+                    f"pattern={pair['pattern']} sizes {case['shards']}")
             try:
                 for which in pair["pattern"] * 3:
                     split = ("train", "test")[which]
@@ -295,7 +305,22 @@ def run_reader(case, ctx):
                             f"{what}: {split} raised {exc!r} at {pos[split]}")
                         break
                     want = expected[split][pos[split] % len(expected[split])]
-                    if dsops.ex_id_of(ex) != want:
+                    seen[split].append(dsops.ex_id_of(ex))
+                    if pair.get("shuffle", 0):
+                        # shuffled: every complete epoch is a permutation
+                        n_split = len(expected[split])
+                        if len(seen[split]) % n_split == 0 and Counter(
+                                seen[split][-n_split:]) != Counter(
+                                    expected[split]):
+                            ctx.fail(
+                                "same-examples",
+                                ("interleaved-iterators-differ",
+                                 "epoch-not-a-permutation"),
+                                f"{what}: {split} epoch ending at position "
+                                f"{len(seen[split])}: " +
+                                oracles.multiset_diff(seen[split][-n_split:],
+                                                      expected[split]))
+                    elif dsops.ex_id_of(ex) != want:
                         ctx.fail(
                             "same-examples",
                             ("interleaved-iterators-differ", "wrong-example"),
